@@ -253,7 +253,10 @@ def run(chk, gate, status):
                         touched.add(o.name)
             if (declared - touched) and out[0] == 'ok':
                 fails.append(f"bake succeeded although {sorted(declared - touched)} were declared and never used")
-            if not (declared - touched) and out[0] != 'ok':
+            # (a step that cannot be performed -- e.g. a second dilution of an object whose name a later create_solution
+            #  re-bound to a weaker solution -- makes bake raise for a reason that is not the lifecycle's: only the
+            #  lifecycle refusals are this property's subject)
+            if not (declared - touched) and out[0] != 'ok' and (out[1] == 'RuntimeError' or 'declared as used' in str(out[2])):
                 fails.append(f"bake refused although every declared object is used: {out}")
         if fails:
             nfail += 1
